@@ -241,6 +241,32 @@ class Policy:
                 self._plan = plan
             nxt = self._plan.pop(0)
             return 0 if nxt is None else nxt
+        if k == "refolder":
+            # a path that changes hands: scan a folder (so that something has been SEEN at that path), remove the folder through a terminal command,
+            # create a folder of the same name again (a new, never-scanned object at the old path), look, scan again
+            if not getattr(self, "_plan", None):
+                amap = env.agent.action_manager.action_map
+                plan = [None]
+                dels = [(i, o) for i, (a, o) in amap.items() if a == "node-send-local-command" and o.get("password") == "admin" and isinstance(o.get("command"), list)
+                        and o["command"][:3] == ["file_system", "delete", "folder"]]
+                self.rnd.shuffle(dels)
+                for i_del, o in dels:
+                    h, fo = o["node_name"], o["command"][3]
+                    find = lambda act: [i for i, (a, oo) in amap.items() if a == act and oo.get("node_name") == h and oo.get("folder_name") == fo]  # noqa: E731
+                    scans, creates, restores = find("node-folder-scan"), find("node-folder-create"), [i for i, (a, oo) in amap.items() if a == "node-send-local-command"
+                                                                                                   and oo.get("node_name") == h and oo.get("password") == "admin"
+                                                                                                   and oo.get("command") == ["file_system", "restore", "folder", fo]]
+                    if not scans:
+                        continue
+                    wait = [None] * self.rnd.randint(4, 6)
+                    plan += [scans[0]] + wait + [i_del] + [None] * self.rnd.randint(0, 2)
+                    if creates:
+                        plan += [creates[0]] + [None] * 3 + [scans[0]] + wait
+                    if restores:
+                        plan += [i_del, None, restores[0], None, None]
+                self._plan = plan + [None] * 4
+            nxt = self._plan.pop(0)
+            return 0 if nxt is None else nxt
         if k == "nic":
             # toggle interfaces / ports while traffic is flowing: a NIC that carried traffic earlier in the SAME step and is then disabled
             amap = env.agent.action_manager.action_map
